@@ -110,6 +110,23 @@ Fixpoint stacked_from (m : emap) (cols : list (option token)) (columns_to_eval :
 Definition stacked_map (eids : list Z) (m : emap) (cols : list token) (columns_to_eval : list Z) : list entry :=
   stacked_from m (some_columns cols) columns_to_eval (length eids) eids 0 0.
 
+(* fords/terminators.py Terminator.create_terminal_jacobian_map: the j-th element of the solution transition vector,
+   dated at the last simulated period (the j-th column of the first-order transition matrices used for the terminal
+   condition), is paired with the column of the unknown that this spot is - or skipped when the spot is not an unknown
+   (exogenized by the simulation plan): pairs (lhs column, rhs column) *)
+Fixpoint terminal_map_from (terminit : list token) (spots : list (option token)) (rhs_column : nat) : list (nat * nat) :=
+  match terminit with
+  | [] => []
+  | t :: r =>
+      let rest := terminal_map_from r spots (S rhs_column) in
+      match col_of spots t with
+      | Some i => (i, rhs_column) :: rest
+      | None => rest
+      end
+  end.
+Definition terminal_jacobian_map (terminit spots : list token) : list (nat * nat) :=
+  terminal_map_from terminit (some_columns spots) 0.
+
 (* jacobians/base.py: M = zeros(shape); M[map.lhs] = td[map.rhs] *)
 Section Assemble.
 Context {V : Type}.
